@@ -246,7 +246,7 @@ RATIO, SLACK = 4, 8
 
 def check_depthsem(run, impl_exe, model_exe, rng, tier):
     progs = []
-    depths = [0, 1, 2, 3, 5, 8, 13, 21] if tier == 'quick' else [0, 1, 2, 3, 4, 5, 6, 8, 11, 13, 17, 21, 34, 55]
+    depths = [0, 1, 2, 5, 13] if tier == 'quick' else [0, 1, 2, 3, 4, 5, 6, 8, 11, 13, 17, 21, 34, 55]
     for d in depths:
         for name, p in shape_programs(d):
             progs.append(('%s/%d' % (name, d), p))
@@ -256,7 +256,7 @@ def check_depthsem(run, impl_exe, model_exe, rng, tier):
             l = l.strip()
             if l and not l.startswith('#'):
                 progs.append(('corpus/%d' % i, eval(l, {'__builtins__': {}}, {})))
-    nrand = 250 if tier == 'quick' else 4000
+    nrand = 120 if tier == 'quick' else 4000
     for i in range(nrand):
         progs.append(('rand/%d' % i, rand_program(rng)))
     # 1. model without limit: final outcome and peak
@@ -498,7 +498,8 @@ def cyclic_programs():
     F.append(fam('inf-mutual', 'local f(x) = g(x), g(x) = f(x); f(0)', None, infinite=True))
     F.append(fam('inf-array', 'local f(x) = [f(x + 1)]; f(0)', None, infinite=True))
     F.append(fam('inf-object', 'local f(x) = { a: f(x + 1) }; f(0)', None, infinite=True))
-    F.append(fam('inf-tailstrict', 'local f(x) = f(x + 1) tailstrict; f(0)', None, infinite=True))
+    # not here: `local f(x) = f(x + 1) tailstrict; f(0)` — tail calls are eliminated (no frame is kept), so it loops
+    # without ever exceeding the limit, as in the reference implementations (notes/C10.md)
     F.append(fam('inf-obj-method', '{ f(x): self.f(x + 1) }.f(0)', None, infinite=True))
     F.append(fam('inf-eq', 'local f(x) = [f(x + 1)]; f(0) == f(0)', None, infinite=True))
     F.append(fam('inf-tostring', 'local f(x) = [f(x + 1)]; std.toString(f(0))', None, infinite=True))
@@ -535,14 +536,14 @@ LIMITS = list(range(1, 65)) + [100, 500, 2000]
 
 
 def check_sweep(run, impl_exe, cli, rng, tier):
-    depths = [0, 1, 2, 3, 5, 9, 20, 33, 64, 120] if tier == 'quick' else [0, 1, 2, 3, 4, 5, 7, 9, 14, 20, 33, 50, 64, 99, 120, 250, 600]
+    depths = [0, 1, 3, 9, 33, 120] if tier == 'quick' else [0, 1, 2, 3, 4, 5, 7, 9, 14, 20, 33, 50, 64, 99, 120, 250, 600]
     jobs = []       # (family dict, d, [limits])
     for d in depths:
         for f in families(d):
             lim = set([1, 2, 3, 500, 2000])
             # around the plausible thresholds (one to three frames per level), plus random ones
             for a in (1, 2, 3):
-                for b in (-1, 0, 1, 2, 3, 4, 5, 6):
+                for b in ((-1, 0, 1, 2, 3, 4, 5, 6) if tier == 'thorough' else (0, 2, 4, 6)):
                     lim.add(a * d + b)
             if tier == 'thorough' and d <= 33:
                 lim.update(LIMITS)
@@ -550,7 +551,7 @@ def check_sweep(run, impl_exe, cli, rng, tier):
                 lim.update(rng.sample(LIMITS, 6))
             jobs.append((f, d, sorted(x for x in lim if 0 <= x)))
     for f in cyclic_programs():
-        lim = set(LIMITS if tier == 'thorough' else rng.sample(LIMITS, 14) + [1, 2, 3, 4, 500, 2000])
+        lim = set(LIMITS if tier == 'thorough' else rng.sample(LIMITS, 8) + [1, 2, 3, 4, 500, 2000])
         if f['cycle']:
             lim.update(range(max(1, f['cycle'] - 2), f['cycle'] + 8))
         jobs.append((f, f['cycle'] or 0, sorted(lim)))
